@@ -21,23 +21,6 @@ theorem pinnedOther_iff {s : State} (hb : ∀ r R, s.reps r = some R → r < s.n
   · rintro ⟨r, R, fid, hR, hf, hne⟩
     exact ⟨r, R, hR, by simp [Rep.refs, hf, hne]⟩
 
-theorem ownKind_iff (s : State) (v : Nat) :
-    ownKind s v = true ↔ ∃ r R fid h t, repOf s v = some r ∧ s.reps r = some R ∧ R.fn = some (.own fid h t) := by
-  unfold ownKind repObj
-  constructor
-  · intro h
-    split at h
-    · rename_i R hR
-      split at hR
-      · rename_i r hr
-        split at h
-        · rename_i fid hh t hf; exact ⟨r, R, fid, hh, t, hr, hR, hf⟩
-        · simp at h
-      · simp at hR
-    · simp at h
-  · rintro ⟨r, R, fid, hh, t, hr, hR, hf⟩
-    simp [hr, hR, hf]
-
 /-- a functor that owns nothing: `destroy()` destroys nothing else -/
 theorem destroyRep_noOwn (k r : Nat) (s : State) (R : Rep) (hr : s.reps r = some R)
     (hf : ∀ f, R.fn = some f → f.owns = none) :
@@ -224,68 +207,6 @@ theorem wf_delS {s : State} (hw : WF s) {v : Nat} (hnp : pinnedOther s v = false
     · have h1 := held_casc hC hw.held
       have h2 := hI3.repUniq
       unfold Held at *; st_simp; grind
-
-/-! ### `delete_rep_with_check` (assignment from an empty source, `clrS`) -/
-
-theorem deleteRepWithCheck_eq (v : Nat) (s : State) : deleteRepWithCheck v s =
-    match repOf s v with
-    | none => s
-    | some r =>
-      if ((repDisconnect r s).reps r).isSome then
-        swapVar v r none (destroyRep (fuel (repDisconnect r s)) r (repDisconnect r s))
-      else repDisconnect r s := rfl
-
-/-- `hsafe`: the `owned` rule — a representation that stores an owning functor is only deleted by name when the
-    variable itself has no holder -/
-theorem wf_deleteRepWithCheck {s : State} (hw : WF s) {v : Nat}
-    (hsafe : ownKind s v = true → ownedBy s v = false)
-    (he : (deleteRepWithCheck v s).err = false) : WF (deleteRepWithCheck v s) := by
-  have hI := hw.inv
-  rw [deleteRepWithCheck_eq] at he ⊢
-  cases hv : repOf s v with
-  | none => exact hw
-  | some r =>
-    simp only [hv] at he ⊢
-    obtain ⟨R, hR⟩ := hI.repAlive v r hv
-    by_cases ha : ((repDisconnect r s).reps r).isSome = true
-    · simp only [ha, if_true] at he ⊢
-      rw [err_swapVar] at he
-      have he1 : (repDisconnect r s).err = false := by
-        cases hx : (repDisconnect r s).err with
-        | false => rfl
-        | true => rw [destroyRep_err_true _ _ _ hx] at he; exact absurd he (by simp)
-      obtain ⟨hC1, hI1⟩ := repDisconnect_spec hI r he1
-      have hw1 : WF (repDisconnect r s) := wf_casc hC1 hw hI1
-      have hv1 : repOf (repDisconnect r s) v = some r := by
-        simp only [repOf, repDisconnect_slot hI hv he1]; exact hv
-      obtain ⟨R1, hR1⟩ := hI1.repAlive v r hv1
-      obtain ⟨hC3, hrest⟩ := destroyRep_spec (fuel (repDisconnect r s)) r _ hI1
-      obtain ⟨hI3, hP3⟩ := hrest he
-      have hv3 : repOf (destroyRep (fuel (repDisconnect r s)) r (repDisconnect r s)) v = some r := by
-        by_cases hk : ownKind s v = true
-        · have hNO : ¬ Owned s v := fun h => by
-            rw [(ownedBy_iff hI.repBound v).mpr h] at hsafe; exact absurd (hsafe hk) (by simp)
-          have hNO1 : ¬ Owned (repDisconnect r s) v := fun h => hNO (hC1.owned h)
-          simp only [repOf, hC3.slotsKeep v hNO1]; exact hv1
-        · have hnk : ∀ f, R1.fn = some f → f.owns = none := by
-            intro f hf
-            obtain ⟨R0, hR0, hfn, -⟩ := hC1.reps r R1 hR1
-            rw [hR] at hR0; cases hR0
-            cases f with
-            | own fid h t =>
-              exfalso; apply hk; rw [ownKind_iff]
-              exact ⟨r, R, fid, h, t, hv, hR, by rcases hfn with h' | h' <;> simp_all⟩
-            | _ => rfl
-          simp only [repOf, destroyRep_slots_noOwn _ r _ R1 hR1 hnk]; exact hv1
-      obtain ⟨R3, hR3⟩ := hI3.repAlive v r hv3
-      refine ⟨inv_swapVar hI3 hv3 hR3 (hP3 R3 hR3), ?_, ?_⟩
-      · exact idle_swapVar (idle_casc hC3 hw1.idle) v r none
-      · refine held_swapVar hI3 ?_ hv3
-        intro x X hX
-        exact .inl (held_casc hC3 hw1.held x X hX)
-    · simp only [ha] at he ⊢
-      obtain ⟨hC1, hI1⟩ := repDisconnect_spec hI r he
-      exact wf_casc hC1 hw hI1
 
 /-! ### allocation of a representation for a functor -/
 
